@@ -16,7 +16,59 @@ from . import core
 from .variants import VARIANTS
 
 
+def _seed_variants(prop):
+    """The sub-agents' confirmed changes kept under /verif/seeded as regression variants: a
+    breaking change this property's check reported must still be reported; a behaviour-preserving
+    refactoring must leave every check silent."""
+    import glob
+    import json
+    out = []
+    base = os.path.join(core.VERIF, "seeded")
+    for meta in sorted(glob.glob(os.path.join(base, "*", "meta.json"))):
+        d = os.path.dirname(meta)
+        try:
+            with open(meta, encoding="utf-8") as fd:
+                m = json.load(fd)
+        except (OSError, ValueError):
+            continue
+        if m.get("confirmed") and prop in (m.get("checks_reporting_violation") or []):
+            out.append({"name": "seed-" + os.path.basename(d), "props": [prop], "patch": os.path.join(d, "patch.diff"),
+                        "expect": "fire", "names": None, "file": None, "edits": []})
+    for meta in sorted(glob.glob(os.path.join(base, "benign", "*", "meta.json"))):
+        d = os.path.dirname(meta)
+        try:
+            with open(meta, encoding="utf-8") as fd:
+                m = json.load(fd)
+        except (OSError, ValueError):
+            continue
+        # relevant to this property: written against it, or this property's check raised an alarm
+        # / stayed incomplete on it before the machinery was corrected (first pass)
+        fp = m.get("first_pass") or {}
+        relevant = m.get("property") == prop or prop in (fp.get("alarms") or []) or \
+            prop in (fp.get("incomplete") or [])
+        if os.environ.get("VERIF_SEEDED") == "all":
+            relevant = True
+        if m.get("confirmed_benign") and relevant:
+            out.append({"name": "refactor-" + os.path.basename(d), "props": [prop],
+                        "patch": os.path.join(d, "patch.diff"), "expect": "silent", "names": None,
+                        "file": None, "edits": []})
+    return out
+
+
+def _apply_patch(root, patch):
+    import subprocess
+    try:
+        r = subprocess.run(["git", "apply", "--whitespace=nowarn", patch], cwd=root,
+                           stdout=subprocess.PIPE, stderr=subprocess.PIPE, timeout=60,
+                           env=dict(os.environ, GIT_CEILING_DIRECTORIES=os.path.dirname(root)))
+    except (OSError, subprocess.SubprocessError):
+        return False
+    return r.returncode == 0
+
+
 def _apply(root, variant):
+    if variant.get("patch"):
+        return _apply_patch(root, variant["patch"])
     path = os.path.join(root, variant["file"])
     if not os.path.exists(path):
         return False
@@ -45,8 +97,9 @@ def _run_variant(args):
             return (variant["name"], "skipped", "edit does not apply")
         import ast
         try:
-            with open(os.path.join(tmp, variant["file"]), encoding="utf-8") as fd:
-                ast.parse(fd.read())
+            if variant.get("file"):
+                with open(os.path.join(tmp, variant["file"]), encoding="utf-8") as fd:
+                    ast.parse(fd.read())
         except SyntaxError as e:
             return (variant["name"], "skipped", "variant does not parse: {}".format(e))
         from .run import run_check
@@ -86,6 +139,9 @@ def _run_variant(args):
 
 def run(prop, root, names=None, jobs=None):
     vs = [v for v in VARIANTS if prop in v["props"]]
+    n_own = len(vs)
+    if os.environ.get("VERIF_SEEDED", "1") != "0":
+        vs = vs + _seed_variants(prop)
     if names:
         vs = [v for v in vs if v["name"] in names]
     seed = int(os.environ.get("VERIF_SEED", "0") or 0)
@@ -100,7 +156,8 @@ def run(prop, root, names=None, jobs=None):
     failures = ["{}: {}".format(n, d) for n, st, d in results if st in ("fail", "error")]
     skipped = [n for n, st, d in results if st == "skipped"]
     applied = len(results) - len(skipped)
-    if vs and applied * 2 < len(vs):
+    own_skipped = [n for n in skipped if not n.startswith(("seed-", "refactor-"))]
+    if n_own and not names and (n_own - len(own_skipped)) * 2 < n_own:
         failures.append("fewer than half of the {} variants apply ({} skipped)".format(
             len(vs), len(skipped)))
     return {"variants": len(vs), "applied": applied, "skipped": skipped,
